@@ -487,7 +487,7 @@ def run(chk, tier):
         chk.analysis_broken('TRAITSORD: fewer than 8 ordering operations of basic_inplace_string found (floor 8)')
     from ..rules import extra10 as _X10
     if _X10.field_cast_area(chk, db, ['_string/']) < 1:      # FIELDCAST
-        chk.analysis_broken('FIELDCAST: no store into the size member of the string found (floor 1)')
+        chk.unknown_instance('FIELDCAST', 'etl::basic_inplace_string', 'no direct store into the size member found')
     _X10.positive_controls(chk, D, ('FIELDCAST',))
     from ..rules import extra10 as _X10c
     _X10c.char_cast_area(chk, db, ('_string/char_traits.hpp',))      # CHARCAST (may match nothing: then the controls carry it)
